@@ -2,7 +2,7 @@
 CONSTANTS Pods = {"p1", "p2"}  Tol = {"p2"}
   Starts = {"registered", "launched", "unpersisted", "fresh"}
   VaOwners = {"p1", "p2"}  TGPs <- BoolBoth  Instants <- BoolF
-  MaxFaults = 1  MaxRestarts = 1  MaxLen = 1000
+  MaxFaults = 1  MaxRestarts = 1  MaxLen = 1000  MaxSpont = 99
   Atomic = TRUE  FinalizeMode = "cache"  Weak = ""
 SPECIFICATION Spec
 VIEW view
